@@ -184,6 +184,11 @@ pub struct NetCase {
     /// transport, protocol, redirect policy, an identity layer) - no setting may get lost on the way
     #[serde(default)]
     pub builder_order: u8,
+    /// the caller keeps the serving future alive after it completed (polled through `&mut`, as in a
+    /// `select!` loop) instead of dropping it: telling the connections to shut down must not depend
+    /// on the future being dropped
+    #[serde(default)]
+    pub hold_server_future: bool,
     pub pool: Option<NetPool>,
     pub connect_delay: u8,
     pub latency: u8,
@@ -707,7 +712,7 @@ async fn upgraded_client_half<IO: AsyncRead + AsyncWrite + Unpin>(mut io: IO, id
 }
 
 macro_rules! start_server {
-    ($builder:expr, $ctx:expr, $obs:expr, $server:expr, $shutdown:expr, $on_accept:expr) => {{
+    ($builder:expr, $ctx:expr, $obs:expr, $server:expr, $shutdown:expr, $on_accept:expr, $hold:expr) => {{
         let ctx: Arc<SrvCtx> = $ctx;
         let obs: O = $obs;
         let server: usize = $server;
@@ -733,20 +738,29 @@ macro_rules! start_server {
         let shutdown: Option<u64> = $shutdown;
         let obs3 = obs.clone();
         tokio::spawn(async move {
-            let r = match (shutdown, on_accept) {
-                (Some(_), Some(_)) => {
-                    srv.with_graceful_shutdown(async move {
-                        if sig_rx.await.is_err() {
-                            std::future::pending::<()>().await;
-                        }
-                    })
-                    .await
-                }
-                (Some(ms), None) => srv.with_graceful_shutdown(async move { tokio::time::sleep(Duration::from_millis(ms)).await }).await,
-                (None, _) => srv.await,
-            };
-            let now = obs3.lock().unwrap().now();
-            obs3.lock().unwrap().server_done[server] = Some((r.map_err(|e| e.to_string()), now));
+            let hold: bool = $hold;
+            macro_rules! finish {
+                ($fut:expr) => {{
+                    let mut fut = Box::pin(std::future::IntoFuture::into_future($fut));
+                    let r = (&mut fut).await;
+                    let now = obs3.lock().unwrap().now();
+                    obs3.lock().unwrap().server_done[server] = Some((r.map_err(|e| e.to_string()), now));
+                    if hold {
+                        // the completed future stays alive until the simulation aborts this task
+                        std::future::pending::<()>().await;
+                    }
+                    drop(fut);
+                }};
+            }
+            match (shutdown, on_accept) {
+                (Some(_), Some(_)) => finish!(srv.with_graceful_shutdown(async move {
+                    if sig_rx.await.is_err() {
+                        std::future::pending::<()>().await;
+                    }
+                })),
+                (Some(ms), None) => finish!(srv.with_graceful_shutdown(async move { tokio::time::sleep(Duration::from_millis(ms)).await })),
+                (None, _) => finish!(srv),
+            }
         })
     }};
 }
@@ -1028,9 +1042,9 @@ pub fn run_net_case(case: &NetCase) -> Result<Obs, String> {
                 let on_acc = shutdown.and(case.shutdown_on_accept).map(|k| k as usize);
                 let base = hyperdriver::Server::builder::<hyperdriver::Body>().with_incoming(incoming);
                 let h = match case.servers[s] % 3 {
-                    0 => start_server!(base.with_http1(), ctx, obs.clone(), s, shutdown, on_acc),
-                    1 => start_server!(base.with_http2(), ctx, obs.clone(), s, shutdown, on_acc),
-                    _ => start_server!(base.with_auto_http(), ctx, obs.clone(), s, shutdown, on_acc),
+                    0 => start_server!(base.with_http1(), ctx, obs.clone(), s, shutdown, on_acc, case.hold_server_future),
+                    1 => start_server!(base.with_http2(), ctx, obs.clone(), s, shutdown, on_acc, case.hold_server_future),
+                    _ => start_server!(base.with_auto_http(), ctx, obs.clone(), s, shutdown, on_acc, case.hold_server_future),
                 };
                 servers.push(h);
             }
